@@ -72,8 +72,8 @@ class Client:
     def park(self, kind):
         """Called in the client's thread at a seam; blocks until the scheduler grants the next step."""
         self.pending = kind
+        self.go.clear()           # before the state change: the scheduler grants only after it has seen "parked"
         self.state = "parked"
-        self.go.clear()
         with self.sched.cv:
             self.sched.cv.notify_all()
         self.go.wait()
